@@ -45,7 +45,7 @@ CSV_DELIMS = [",", ";", "\t", "|", " ", ":"]
 
 PLAIN = "abcdefghijklmnopqrstuvwxyzABCXYZ0123456789_"
 SPECIAL = [" ", " ", "\t", "\n", "\r", "\r\n", '"', '"', "\\", "\\", "=", ",", "'", ":", ";", "|", "#", ".", "-",
-           "/", "[", "]", "{", "}", "&", "~", ">", "é", "日", "\U0001f600", " ", " ", " ", "\x00",
+           "/", "[", "]", "{", "}", "&", "~", ">", "é", "日", "\U0001f600", "\u00a0", "\u2003", "\u3000", "\u000b", "\u0085", "\u2028", "\x00",
            "\x1b", "\\n", '\\"', "\\\\", '""', "''", "%"]
 
 NAMES = {" ": "space", "\t": "tab", "\n": "newline", "\r": "cr", '"': "dquote", "'": "squote", "\\": "backslash",
